@@ -26,8 +26,9 @@ RULE = ('cases = histories of public memory-management API calls (TLC -simulate 
         'pages, unified devices, 1-3 processes, several contexts per process) executed on the real driver; every call '
         'is checked (returned pointer, complete page table, panic). distinct = distinct call sequences incl. observed '
         'results; non-trivial = the history re-allocates after a Free, or moves pages (Remap/Distribute/migration), '
-        'or frees a multi-page buffer')
+        'or copies to the host after a kernel launch')
 TSPEC = {'dirs': ['memalloc'], 'module': 'MemAllocTrace.tla', 'cfg': 'MemAllocTrace.cfg'}
+TSPEC_BUDDY = {'dirs': ['memalloc'], 'module': 'MemAllocTrace.tla', 'cfg': 'MemAllocTraceBuddy.cfg'}
 DEV_RE = re.compile(r'<<"DEVIATION", (\d+), \{([^}]*)\}>>')
 
 DEVIATION_TEXT = {
@@ -39,6 +40,10 @@ DEVIATION_TEXT = {
                           'the history stays within capacity',
     'RemapRecordsGivenDeviceID': 'Remap to a unified device records the unified device id in the page, not the GPU that '
                                  'holds the physical page',
+    'FreedBufferSweepPanics': 'Context.removeFreedBuffers deletes from the slice it ranges over: a device-to-host copy of a dirty buffer '
+                              'panics (slice bounds out of range) when the context\'s last buffer and another one were freed',
+    'BuddyCorruptsFreeLists': 'buddy allocator: a block taken off a free list to be split does not toggle its parent\'s merge '
+                              'bit; a later free merges a live block into a free one and a live physical page is handed out again',
 }
 
 # ---------------------------------------------------------------- directed histories
@@ -89,7 +94,28 @@ def directed():
         {'a': A, 'ctx': 0, 'dev': 1, 'n': 1}, {'a': A, 'ctx': 1, 'dev': 2, 'n': 1},
         {'a': 'Mig', 'b': 1, 'off': 0, 'dev': 2}, {'a': 'Mig', 'b': 2, 'off': 0, 'dev': 1}, {'a': F, 'ctx': 0, 'b': 1},
         {'a': A, 'ctx': 0, 'dev': 2, 'n': 1}], ctxs=(1, 1))
+    # kernel launch (buffers become L2-dirty), two buffers allocated and freed afterwards, device-to-host copy:
+    # the flush sweeps the freed buffers out of the context's list
+    sc('sweep_freed_buffers', [
+        {'a': A, 'ctx': 0, 'dev': 1, 'n': 1}, {'a': 'Launch', 'ctx': 0, 'dev': 1}, {'a': A, 'ctx': 0, 'dev': 1, 'n': 1},
+        {'a': A, 'ctx': 0, 'dev': 1, 'n': 1}, {'a': 'CopyOut', 'ctx': 0, 'b': 1}, {'a': F, 'ctx': 0, 'b': 3},
+        {'a': F, 'ctx': 0, 'b': 4}, {'a': 'CopyOut', 'ctx': 0, 'b': 1}, {'a': A, 'ctx': 0, 'dev': 1, 'n': 1},
+        {'a': 'CopyOut', 'ctx': 0, 'b': 5}], gpus=(16,), unified=(), drain=False)
     return out
+
+
+def buddy_directed():
+    A, F = 'Alloc', 'Free'
+    return [
+        # three single pages, free the first two: the buddy allocator then believes the whole memory is free
+        {'ps': 12, 'gpus': [4], 'unified': [], 'ctxs': [1], 'drain': True, 'tag': 'directed/buddy_merge',
+         'ops': [{'a': A, 'ctx': 0, 'dev': 1, 'n': 1}, {'a': A, 'ctx': 0, 'dev': 1, 'n': 1}, {'a': A, 'ctx': 0, 'dev': 1, 'n': 1},
+                 {'a': F, 'ctx': 0, 'b': 1}, {'a': F, 'ctx': 0, 'b': 2}]},
+        {'ps': 12, 'gpus': [8, 2], 'unified': [[1, 2]], 'ctxs': [1], 'drain': True, 'tag': 'directed/buddy_single_pages',
+         'ops': [{'a': A, 'ctx': 0, 'dev': 1, 'n': 1}, {'a': A, 'ctx': 0, 'dev': 2, 'n': 1}, {'a': F, 'ctx': 0, 'b': 1},
+                 {'a': A, 'ctx': 0, 'dev': 3, 'n': 1}, {'a': 'Probe', 'ctx': 0, 'dev': 2}, {'a': F, 'ctx': 0, 'b': 2},
+                 {'a': F, 'ctx': 0, 'b': 3}]},
+    ]
 
 
 def scenario_from_behaviour(beh, i):
@@ -166,7 +192,7 @@ def validate(ctx, trace, scens, drvname='c10', tspec=TSPEC):
             ctx.pid, DEVIATION_TEXT.get(name, name), lines[0] - start, recs[0].get('tag'),
             json.dumps({k: x for k, x in ev.items() if k != 'pt'})[:300])
         ctx.report_failure(what, {'kind': 'deviation', 'deviation': name},
-                           {'driver': {'cmd': drvname, 'scenarios': [scens[idx]]}, 'deviation': name,
+                           {'driver': {'cmd': drvname, 'cfg': tspec['cfg'], 'scenarios': [scens[idx]]}, 'deviation': name,
                             'occurrences': len(lines), 'trace': recs[:lines[0] - start + 1]})
         ctx.cov.setdefault('deviation_uses', {})[name] = ctx.cov.get('deviation_uses', {}).get(name, 0) + len(lines)
     if v['accepted']:
@@ -181,7 +207,7 @@ def validate(ctx, trace, scens, drvname='c10', tspec=TSPEC):
         return {'op': ev.get('op', ev.get('e'))}
     ts = dict(tspec)
     ts['signature'] = signature
-    return common.validate_and_triage(ctx, ts, trace, {'cmd': drvname, 'scenarios': [scens[idx]]})
+    return common.validate_and_triage(ctx, ts, trace, {'cmd': drvname, 'cfg': tspec['cfg'], 'scenarios': [scens[idx]]})
 
 
 # ---------------------------------------------------------------- binding self-test
@@ -263,7 +289,7 @@ def nontrivial(recs):
             freed = True
         elif r['e'] == 'Alloc' and freed:
             return True
-        elif r['e'] in ('Remap', 'Dist', 'Mig'):
+        elif r['e'] in ('Remap', 'Dist', 'Mig', 'CopyOut'):
             return True
     return False
 
@@ -282,10 +308,23 @@ def model_check(ctx, thorough):
     ctx.log('MC_MemAlloc (intended design, 4 calls): %d distinct states, depth %d, all invariants hold' % (r.distinct, r.depth))
     # as implemented: the property invariants, judged without a listed deviation, still hold; with the deviations
     # the model exhibits each defect (the lead that the directed histories reproduce on the real code)
-    r = ctx.tlc_expect_ok(['memalloc'], 'MC_MemAlloc.tla', 'MC_MemAlloc_impl.cfg', timeout=900)
-    ctx.log('MC_MemAlloc_impl (as implemented, deviation-free prefixes): %d distinct states' % r.distinct)
+    # Context.removeFreedBuffers (buffer bookkeeping): repaired design never panics and sweeps exactly the freed
+    # buffers for every freed/live pattern of up to 5 buffers; the pinned loop panics (lead for directed/sweep)
+    r = ctx.tlc_expect_ok(['memalloc'], 'SweepList.tla', 'MC_SweepList.cfg', workers=2, timeout=300)
+    r2 = ctx.tlc(['memalloc'], 'SweepList.tla', 'MC_SweepList_impl.cfg', workers=2, timeout=300, kind='lead')
+    if 'NeverPanics' not in r2.violated:
+        raise vlib.Infra('as-implemented SweepList no longer violates NeverPanics\n' + r2.out[-1500:])
+    ctx.log('SweepList: repaired sweep ok on %d states; pinned loop panics (TLC counterexample)' % r.distinct)
+    # buddy free structure: with the parent merge bit always toggled every invariant holds; the pinned rule
+    # hands a page out twice (lead for directed/buddy_merge)
+    r = ctx.tlc_expect_ok(['memalloc'], 'Buddy.tla', 'MC_Buddy.cfg', timeout=900)
+    ctx.log('MC_Buddy (8 pages, requests <= 4 pages, parent merge bit always toggled): %d distinct states, invariants hold' % r.distinct)
+    r = ctx.tlc(['memalloc'], 'Buddy.tla', 'MC_Buddy_impl.cfg', timeout=300, kind='lead')
+    if 'NoDoubleHandOut' not in r.violated:
+        raise vlib.Infra('as-implemented buddy model no longer violates NoDoubleHandOut\n' + r.out[-1500:])
     leads = {}
-    for inv in ['InsideRecordedDevice', 'TableAgreesWithAllocator', 'ReusableExactly', 'NoCrashWithinCapacity']:
+    invs = ['InsideRecordedDevice', 'TableAgreesWithAllocator', 'ReusableExactly', 'NoCrashWithinCapacity']
+    for inv in (invs if thorough else invs[1:2] + invs[3:]):
         r = ctx.tlc(['memalloc'], 'MC_MemAlloc.tla', 'MC_MemAlloc_impl_%s.cfg' % inv, timeout=600, kind='lead')
         if inv not in r.violated:
             raise vlib.Infra('as-implemented model no longer violates %s (deviation switches broken?)\n%s' % (inv, r.out[-1500:]))
@@ -295,7 +334,10 @@ def model_check(ctx, thorough):
             ce = None
         leads[inv] = len(ce) - 1 if ce else None
     ctx.cov['as_implemented_counterexample_lengths'] = leads
-    ctx.log('as-implemented model violates %s' % leads)
+    ctx.log('as-implemented model violates (counterexample length) %s' % leads)
+    if thorough:
+        r = ctx.tlc_expect_ok(['memalloc'], 'MC_MemAlloc.tla', 'MC_MemAlloc_impl.cfg', workers=vlib.NCPU, timeout=1800)
+        ctx.log('MC_MemAlloc_impl (as implemented, property judged on deviation-free prefixes): %d distinct states' % r.distinct)
     if thorough:
         r = ctx.tlc_expect_ok(['memalloc'], 'MC_MemAlloc.tla', 'MC_MemAlloc_deep.cfg', workers=vlib.NCPU, timeout=3000)
         ctx.log('MC_MemAlloc_deep (5 calls): %d distinct states' % r.distinct)
@@ -308,8 +350,9 @@ def run(ctx, selftest=False):
     thorough = ctx.tier == 'thorough'
     drv = ctx.go_build('c10')
 
-    # 1. design-level model checking
-    model_check(ctx, thorough)
+    # 1. design-level model checking (C10_SKIP_MC=1 is a development aid for mutant runs; evidence is then incomplete)
+    if not os.environ.get('C10_SKIP_MC'):
+        model_check(ctx, thorough)
 
     all_parts = []
 
@@ -336,21 +379,52 @@ def run(ctx, selftest=False):
     validate(ctx, t2, rscen)
     all_parts += vlib.split_traces(t2)
 
+    # 3b. the buddy allocator (4 KiB pages, power-of-two memories); needs the hook that selects it
+    stats3 = {'events': 0, 'ops': 0}
+    try:
+        drvb = ctx.go_build('c10buddy')
+    except vlib.Infra as e:
+        if 'VerifUseBuddyAllocator' not in str(e):
+            raise
+        drvb = None
+        ctx.notes.append('buddy allocator NOT exercised on the real code: hook amd/driver/verif_c10.go '
+                         '(fixes/C10-hook-allocator.diff) is not in the tree')
+        ctx.log('c10buddy not built: hook fixes/C10-hook-allocator.diff missing; buddy allocator covered at model level only')
+    if drvb:
+        bscen = buddy_directed()
+        tb, sb = run_scenarios(ctx, drvb, bscen, 'buddy_scen')
+        validate(ctx, tb, bscen, drvname='c10buddy', tspec=TSPEC_BUDDY)
+        t3 = os.path.join(ctx.scratch, 'buddy_rand.ndjson')
+        sdump3 = os.path.join(ctx.scratch, 'buddy_rand_scen.json')
+        p, stats3 = common.run_driver(ctx, drvb, ['-random', 600 if thorough else 60, '-ops', 60 if thorough else 40,
+                                                   '-seed', ctx.seed + 1000, '-dumpscen', sdump3, '-out', t3])
+        if stats3 is None:
+            raise vlib.Infra('buddy driver failed: ' + p.stdout[-2000:])
+        ctx.log('buddy allocator: %d directed + random histories: %s' % (len(bscen), stats3))
+        validate(ctx, t3, json.load(open(sdump3)), drvname='c10buddy', tspec=TSPEC_BUDDY)
+        all_parts += vlib.split_traces(tb) + vlib.split_traces(t3)
+        stats3 = {'events': stats3['events'] + sb['events'], 'ops': stats3['ops'] + sb['ops']}
+    ctx.cov['buddy_allocator_exercised'] = bool(drvb)
+
     def strip(recs):
         return json.dumps([{k: v for k, v in r.items() if k != 'seq'} for r in recs], sort_keys=True)
     distinct_nt = {strip(recs) for _, recs in all_parts if nontrivial(recs)}
     ex = all_parts[-1][1]
     ctx.sample({'trace_excerpt': [{k: v for k, v in r.items()} for r in ex[:4]]})
     ctx.cov.update({'evaluations': len(all_parts), 'distinct_nontrivial': len(distinct_nt),
-                    'events_validated': stats['events'] + stats2['events'],
-                    'api_calls': stats['ops'] + stats2['ops'],
+                    'events_validated': stats['events'] + stats2['events'] + stats3['events'],
+                    'api_calls': stats['ops'] + stats2['ops'] + stats3['ops'],
                     'histories_ended_by_driver_panic': stats.get('traces_crashed', 0) + stats2.get('traces_crashed', 0)})
 
     # 4. binding self-test on the histories of the clean profile (single process, single pages: no known defect)
     clean = os.path.join(ctx.scratch, 'clean.ndjson')
     vlib.write_ndjson(clean, [r for _, recs in vlib.split_traces(t2) if 'profile0' in str(recs[0].get('tag'))
                               for r in recs])
-    common.selftest_binding(ctx, TSPEC, clean, corruptions())
+    if ctx.violations:
+        # the self-test needs traces of a conforming implementation; the verdict is already decided
+        ctx.notes.append('binding self-test skipped: the run found violations')
+    else:
+        common.selftest_binding(ctx, TSPEC, clean, corruptions())
     ctx.assumptions += [
         'physical layout assumed as the allocator defines it: one guard page, 4 GiB CPU memory, GPUs in registration order',
         'the recording wrapper around vm.NewPageTable only remembers written keys; the table content is read through Find',
@@ -368,5 +442,7 @@ def replay(ctx, path):
     scens = d['scenarios']
     t, _ = run_scenarios(ctx, drv, scens, 'replay')
     before = len(ctx.violations)
-    validate(ctx, t, scens, drvname=d.get('cmd', 'c10'))
+    ts = dict(TSPEC)
+    ts['cfg'] = d.get('cfg', TSPEC['cfg'])
+    validate(ctx, t, scens, drvname=d.get('cmd', 'c10'), tspec=ts)
     return 1 if len(ctx.violations) > before else 0
